@@ -380,6 +380,8 @@ impl Prepared {
     pub fn run_mode(&self, mode: &Val) -> Val {
         let mut searcher = self.flags.searcher();
         let mut per_file = vec![];
+        // bytes actually written to the printer's writer during each search
+        let mut written: Vec<Val> = vec![];
         let row = |completed: bool, mc: u64, has: bool, st: Option<Val>| {
             Val::L(vec![Val::of_bool(completed), Val::N(mc as u128), Val::of_bool(has), Val::of_opt(st)])
         };
@@ -403,6 +405,7 @@ impl Prepared {
                     .build_no_color(vec![]);
                 for (path, input) in &self.files {
                     let pb = path_of(path);
+                    let before = p.get_mut().get_ref().len();
                     let (ok, has, st) = match &pb {
                         Some(pb) => {
                             let mut sink = p.sink_with_path(&self.matcher, pb);
@@ -416,8 +419,9 @@ impl Prepared {
                         }
                     };
                     per_file.push(row(ok, 0, has, st));
+                    written.push(Val::of_us(p.get_mut().get_ref().len() - before));
                 }
-                Val::L(vec![Val::of_bytes(&p.into_inner().into_inner()), Val::L(per_file)])
+                Val::L(vec![Val::of_bytes(&p.into_inner().into_inner()), Val::L(per_file), Val::L(written)])
             }
             1 => {
                 let mut p = StandardBuilder::new()
@@ -438,6 +442,7 @@ impl Prepared {
                     .build_no_color(vec![]);
                 for (path, input) in &self.files {
                     let pb = path_of(path);
+                    let before = p.get_mut().get_ref().len();
                     let (ok, mc, st) = match &pb {
                         Some(pb) => {
                             let mut sink = p.sink_with_path(&self.matcher, pb);
@@ -451,8 +456,9 @@ impl Prepared {
                         }
                     };
                     per_file.push(row(ok, mc, mc > 0, st));
+                    written.push(Val::of_us(p.get_mut().get_ref().len() - before));
                 }
-                Val::L(vec![Val::of_bytes(&p.into_inner().into_inner()), Val::L(per_file)])
+                Val::L(vec![Val::of_bytes(&p.into_inner().into_inner()), Val::L(per_file), Val::L(written)])
             }
             _ => {
                 let mut p = JSONBuilder::new()
@@ -478,7 +484,7 @@ impl Prepared {
                 let out = p.into_inner();
                 let msgs: Vec<Val> =
                     out.split(|&b| b == b'\n').filter(|l| !l.is_empty()).map(json_msg).collect();
-                Val::L(vec![Val::L(msgs), Val::L(per_file)])
+                Val::L(vec![Val::L(msgs), Val::L(per_file), Val::L(written)])
             }
         }
     }
